@@ -299,6 +299,19 @@ fn one_wtwin<T: Sc>(out: &mut Out, rng: &mut Rng, thorough: bool, i: usize) {
         }
         c
     };
+    let mut c = c;
+    // one case in ten: weights spanning far more orders of magnitude than the precision of the type
+    // (times exact powers of two from 1 down to 2^-70 / 2^-34): a small weight is a small weight, not zero
+    if i % 10 == 3 {
+        if let Some(w) = c.w.as_mut() {
+            let n = w.len();
+            let span = if T::WIDTH == 32 { 34.0 } else { 70.0 };
+            for (r, v) in w.iter_mut().enumerate() {
+                let e = -(span * r as f64 / (n.max(2) - 1) as f64).round();
+                *v = *v * T::of(2f64.powf(e));
+            }
+        }
+    }
     let fl = c.flavour;
     let w = c.w.clone().unwrap();
     let n = c.recipe.n();
